@@ -136,6 +136,20 @@ func (e *Engine) verifyUnit(u *FuncUnit) *UnitResult {
 			}
 			st.ghost[g.Name] = v
 		}
+		// ghosts bound at program points: unconstrained until their point is passed; counters start at 0
+		for _, pg := range ct.PointGhosts {
+			so, err := c.parseSort(pg.Sort)
+			if err != nil {
+				c.abort("%s %s: %v", pg.Kind, pg.Name, err)
+				break
+			}
+			if pg.Kind == "count" {
+				st.ghost[pg.Name] = Val{T: "0", S: "Int"}
+			} else {
+				c.ensureSort(so)
+				st.ghost[pg.Name] = Val{T: c.fresh("pg_"+pg.Name, so), S: so}
+			}
+		}
 		for i, r := range ct.Requires {
 			t, err := env.trBool(r.Expr)
 			if err != nil {
